@@ -126,12 +126,12 @@ func C14(tier string) int {
 		cfgs = append(cfgs, Config{Name: fmt.Sprintf("circuit qubits=%d program=%q", c.n, c.c), Func: "zzC14Circuit", Args: []Arg{I(c.n), S(c.c)}, Setup: c14Hooks})
 	}
 	sp := &Spec{
-		ID: "C14", Level: "proof", Tier: tier, Harness: h,
+		ID: "C14", Level: "proof", Tier: tier, Harness: h, ReplayOrModel: true,
 		LoadPkgs: []string{"pkg/bmqsim"},
 		Opts:     RunOpts{Inits: []string{}, ConfigBudgetS: 900, TimeoutMs: 60000, PanicObl: true},
 		Configs:  FilterConfigs(cfgs),
 		Assumptions: []string{
-			"EXACT ARITHMETIC, NOT IEEE-754: float32 values are exact reals in the encoding (sort Real, polynomial identities decided by z3's nonlinear arithmetic); rounding and the 'within float32 tolerance' part of the property are outside. Native replay of a counterexample uses the real gate tables and a 1e-4 tolerance",
+			"EXACT ARITHMETIC, NOT IEEE-754: float32 values are exact reals in the encoding (sort Real, polynomial identities decided by z3's nonlinear arithmetic); rounding and the 'within float32 tolerance' part of the property are outside. A counterexample is replayed natively with the real gate tables and a 1e-4 tolerance; when those particular gates do not show it, it stands on the exact rational evaluation of the obligation under the solver's model",
 			"gate placement for ARBITRARY gate matrices: BmQSimulator.MatrixFromOp is redirected to a stub returning a matrix of fresh solver variables (real and imaginary part per entry), the same one when the same gate instance is asked for again; therefore the gate constant tables (static2x2.go, static4x4.go), the parametric gates (sin/cos) and unitarity of each gate are NOT checked - unitarity of an emitted matrix follows from placement (tensor products and simultaneous row/column permutations preserve it) only if the gate tables are unitary",
 			"executed symbolically: BmMatrixFromOperation, swaps2baseSwaps, TensorProductComplex, SwapRowsColsComplex, IdentityComplex, Complex32Mul/Add, QasmToBmMatrices, RunSoftwareSimulation, MatrixVectorProductComplex",
 			"reference: entry (r,c) of a layer is the product over its gates of g[bits of r at the gate's qubits][bits of c at them], first argument most significant, qubit 0 the most significant bit, rows and columns equal on idle qubits; a circuit is the product of its gates' operators in program order",
